@@ -4,6 +4,14 @@ namespace Iora.EngineQueue
 set_option linter.unusedSimpArgs false
 set_option linter.unusedVariables false
 
+/-! the regenerated facts of both engines the model is instantiated with (a change of the source that flips one breaks the build here) -/
+theorem f_enq : TeardownFacts.enqueueRefusesWhenClosed = true := by decide
+theorem f_drain : TeardownFacts.drainClosesAndTakesUnderOneLock = true := by decide
+theorem f_resid : TeardownFacts.residualPromisesFailed = true := by decide
+theorem f_norm : TeardownFacts.dispatchFulfilsNormalArm = true := by decide
+theorem f_catch : TeardownFacts.dispatchFulfilsCatchArm = true := by decide
+theorem f_shut : TeardownFacts.shutdownCommandClearsRunning = true := by decide
+
 /-- how many queued commands still carry promise `p` -/
 def pending (s : State) (p : Nat) : Nat :=
   s.cmds.count (.addListener p) + s.batch.count (.addListener p) + s.residual.count (.addListener p)
@@ -56,7 +64,7 @@ theorem step_inv {s : State} (h : Inv s) (st : Step) (hok : ok s st = true) : In
       cases c with
       | addListener p =>
         simp only [ok, Bool.and_eq_true, Bool.not_eq_true', List.contains_eq_mem, decide_eq_false_iff_not] at hok
-        have e : doEnqueue s (.addListener p) = { s with rejected := p :: s.rejected } := by simp [doEnqueue, hcl]
+        have e : doEnqueue s (.addListener p) = { s with rejected := p :: s.rejected } := by simp [doEnqueue, hcl, f_enq]
         rw [e]
         constructor
         · intro q; have := hC q; simpa [pending] using this
@@ -69,16 +77,16 @@ theorem step_inv {s : State} (h : Inv s) (st : Step) (hok : ok s st = true) : In
           rcases hq with hq | hq
           · subst hq; exact hok.1
           · exact hR q hq
-      | shutdown => have e : doEnqueue s .shutdown = s := by simp [doEnqueue, hcl]
+      | shutdown => have e : doEnqueue s .shutdown = s := by simp [doEnqueue, hcl, f_enq]
                     rw [e]; exact h
-      | other => have e : doEnqueue s .other = s := by simp [doEnqueue, hcl]
+      | other => have e : doEnqueue s .other = s := by simp [doEnqueue, hcl, f_enq]
                  rw [e]; exact h
     | false =>
       cases c with
       | addListener p =>
         simp only [ok, Bool.and_eq_true, Bool.not_eq_true', List.contains_eq_mem, decide_eq_false_iff_not] at hok
         have e : doEnqueue s (.addListener p) =
-            { s with cmds := s.cmds ++ [.addListener p], accepted := p :: s.accepted } := by simp [doEnqueue, hcl]
+            { s with cmds := s.cmds ++ [.addListener p], accepted := p :: s.accepted } := by simp [doEnqueue, hcl, f_enq]
         rw [e]
         constructor
         · intro q
@@ -106,19 +114,29 @@ theorem step_inv {s : State} (h : Inv s) (st : Step) (hok : ok s st = true) : In
           · subst hq'; exact hok.2 hq
           · exact hR q hq hq'
       | shutdown =>
-        have e : doEnqueue s .shutdown = { s with cmds := s.cmds ++ [.shutdown] } := by simp [doEnqueue, hcl]
+        have e : doEnqueue s .shutdown = { s with cmds := s.cmds ++ [.shutdown] } := by simp [doEnqueue, hcl, f_enq]
         rw [e]; exact push_plain h hcl _ (by intro q; simp)
       | other =>
-        have e : doEnqueue s .other = { s with cmds := s.cmds ++ [.other] } := by simp [doEnqueue, hcl]
+        have e : doEnqueue s .other = { s with cmds := s.cmds ++ [.other] } := by simp [doEnqueue, hcl, f_enq]
         rw [e]; exact push_plain h hcl _ (by intro q; simp)
+  | clearRunning =>
+    simp only [step]
+    constructor <;> simp_all [pending]
+  | restart =>
+    simp only [step]
+    split
+    · rename_i hph
+      have h2 := hP2 (Or.inr hph)
+      have h3 := hP3 hph
+      have h4 := hQ h2.1
+      constructor <;> simp_all [pending]
+    · exact h
   | swap =>
     simp only [step]
     split
     · rename_i hph hb
-      split
-      · constructor <;> simp_all [pending]
-        all_goals (intro p; have := hC p; omega)
-      · exact h
+      constructor <;> simp_all [pending]
+      all_goals (intro p; have := hC p; omega)
     · rename_i hph hb
       constructor <;> simp_all [pending]
       all_goals (intro p; have := hC p; omega)
@@ -127,6 +145,7 @@ theorem step_inv {s : State} (h : Inv s) (st : Step) (hok : ok s st = true) : In
     simp only [step]
     have key : Inv (doDispatch s t) := by
       unfold doDispatch
+      simp only [f_norm, f_catch, f_shut, ite_self, if_true]
       split
       · exact h
       · rename_i p rest hb
@@ -152,14 +171,14 @@ theorem step_inv {s : State} (h : Inv s) (st : Step) (hok : ok s st = true) : In
       · constructor <;> simp_all [pending]
     · exact h
   | closeQueue =>
-    simp only [step]
+    simp only [step, f_drain, if_true]
     split
     · rename_i hph hb
       constructor <;> simp_all [pending]
       all_goals (intro p; have := hC p; omega)
     · exact h
   | failResidual =>
-    simp only [step]
+    simp only [step, f_resid, if_true]
     split
     · constructor <;> simp_all [pending]
     · rename_i p rest hph hr
